@@ -177,6 +177,63 @@ fn dev_set(rng: &mut Rng) {
     emit("dev.set", &i, &o, &v);
 }
 
+/// A deviation set that has been written out and read back (serde, as the library derives it) is a constructed set
+/// like any other: it reports the true extremes of what it holds, and keeps doing so through further pushes.
+fn dev_set_reloaded(rng: &mut Rng) {
+    let mut val = |rng: &mut Rng| if rng.chance(0.5) { rng.dyadic(4, 2) } else { rng.range(-5.0, 5.0) };
+    let n0 = rng.below(7);
+    let init: Vec<f64> = (0..n0).map(|_| val(rng)).collect();
+    let before: Vec<f64> = (0..rng.below(4)).map(|_| val(rng)).collect();
+    let after: Vec<f64> = (0..rng.below(5)).map(|_| val(rng)).collect();
+    let sp = SurfacePoint2::new(Point2::new(0.0, 0.0), UnitVec2::new_normalize(Vector2::new(1.0, 0.0)));
+    let mut v = Verdict::new();
+    let r = guarded(|| {
+        let mut notes: Vec<(bool, &'static str, String)> = vec![];
+        let mut set = SurfaceDeviationSet2::new(init.iter().map(|d| SurfaceDeviation2::new(sp, *d)).collect());
+        let mut all = init.clone();
+        for d in &before {
+            set.push_new(sp, *d);
+            all.push(*d);
+        }
+        let text = serde_json::to_string(&set).map_err(|e| e.to_string())?;
+        let mut set: SurfaceDeviationSet2 = serde_json::from_str(&text).map_err(|e| e.to_string())?;
+        // (the JSON text carries each value to within a unit in the last place; what the reloaded set holds is the truth
+        // its extremes are judged against)
+        let held: Vec<f64> = set.iter().map(|d| d.deviation).collect();
+        notes.push((held.len() == all.len() && held.iter().zip(&all).all(|(a, b)| (a - b).abs() <= 1e-14 * (1.0 + b.abs())), "devset.round_trips_through_serde", format!("{held:?} vs {all:?}")));
+        let mut all = held;
+        let mut audit = |set: &SurfaceDeviationSet2, all: &Vec<f64>, when: &str| {
+            let tmax = all.iter().cloned().fold(f64::NEG_INFINITY, f64::max);
+            let tmin = all.iter().cloned().fold(f64::INFINITY, f64::min);
+            notes.push((set.len() == all.len(), "devset.reloaded_len", format!("{when}: {} vs {}", set.len(), all.len())));
+            if all.is_empty() {
+                notes.push((set.max().is_none() && set.min().is_none(), "devset.reloaded_empty_has_no_extremes", when.to_string()));
+            } else {
+                notes.push((set.max().map(|d| d.deviation) == Some(tmax), "devset.reloaded_max_is_true_max", format!("{when}: {:?} vs {tmax} of {all:?}", set.max().map(|d| d.deviation))));
+                notes.push((set.min().map(|d| d.deviation) == Some(tmin), "devset.reloaded_min_is_true_min", format!("{when}: {:?} vs {tmin} of {all:?}", set.min().map(|d| d.deviation))));
+                notes.push((set.symmetrical_zone_size() == 2.0 * tmax.abs().max(tmin.abs()), "devset.reloaded_zone", format!("{when}: {all:?}")));
+            }
+        };
+        audit(&set, &all, "after reload");
+        for d in &after {
+            set.push(SurfaceDeviation2::new(sp, *d));
+            all.push(*d);
+            audit(&set, &all, "after reload and push");
+        }
+        Ok::<_, String>(notes)
+    });
+    match r {
+        Err(e) => v.require(false, "devset.reloaded_set_panics", || format!("init {init:?} pushed {before:?} then reloaded, pushed {after:?}: {e}")),
+        Ok(Err(e)) => v.require(false, "devset.round_trips_through_serde", || e.clone()),
+        Ok(Ok(notes)) => {
+            for (ok, clause, what) in notes {
+                v.require(ok, clause, || what.clone());
+            }
+        }
+    }
+    emit_oracle_only("dev.set_reloaded", &Tok::new(), &Tok::new(), &v);
+}
+
 fn tolmap(rng: &mut Rng) {
     let n = rng.int(1, 8) as usize;
     let mut vals: Vec<f64> = Vec::new();
@@ -371,6 +428,7 @@ pub fn run(rng: &mut Rng, n: usize) {
         case("dev.case", "c16.library_call_panics", || dev_mesh(rng));
         for _ in 0..4 {
             case("dev.case", "c16.library_call_panics", || dev_set(rng));
+            case("dev.case", "c16.library_call_panics", || dev_set_reloaded(rng));
             case("dev.case", "c16.library_call_panics", || tolmap(rng));
             case("dev.case", "c16.library_call_panics", || cloud(rng));
         }
